@@ -18,7 +18,7 @@
  "name": "iblk_add_blocks",
  "props": ["C09"],
  "level": "U",
- "tier": "wip",
+ "tier": "quick",
  "harness": "h_iblk_add",
  "enforce": ["ext2fs_iblk_add_blocks"],
  "functions": ["lib/ext2fs/i_block.c:ext2fs_iblk_add_blocks"],
@@ -50,7 +50,7 @@
  "name": "iblk_set",
  "props": ["C09"],
  "level": "U",
- "tier": "wip",
+ "tier": "quick",
  "harness": "h_iblk_set",
  "enforce": ["ext2fs_iblk_set"],
  "functions": ["lib/ext2fs/i_block.c:ext2fs_iblk_set"],
